@@ -1,40 +1,60 @@
 #!/venv/bin/python
-"""Run all checks against each refactoring patch (dir/*/patch.diff): a VIOLATION is a false alarm."""
+"""Run all checks against each refactoring patch (dir/*/patch.diff): a VIOLATION is a false alarm.
+usage: tools/try_refactors.py [glob ...] [-j N]"""
 import glob, json, os, shutil, subprocess, sys, tempfile
+import multiprocessing as mp
 sys.path.insert(0, os.path.dirname(os.path.dirname(os.path.abspath(__file__))))
 from s3tlint import engine, rules
 from s3tlint.ir import Program, AnalysisError
 from s3tlint.props import PROPS
-rules.load_all()
-pats = sys.argv[1:] or ['/verif/refactors/*/patch.diff']
-tot = fa = fc = 0
-for pat in pats:
-    for pf in sorted(glob.glob(pat)):
-        tot += 1
-        tmp = tempfile.mkdtemp(prefix='s3tlint_ref_')
+
+
+def work(pf):
+    rules.load_all()
+    tmp = tempfile.mkdtemp(prefix='s3tlint_ref_')
+    lines = []
+    try:
+        shutil.copytree('/repo/s3transfer', os.path.join(tmp, 's3transfer'))
+        r = subprocess.run(['patch', '-p1', '-s', '-d', tmp, '-i', pf], capture_output=True, text=True)
+        if r.returncode != 0:
+            return pf, 'patch-fails', [r.stdout[:100]]
         try:
-            shutil.copytree('/repo/s3transfer', os.path.join(tmp, 's3transfer'))
-            r = subprocess.run(['patch', '-p1', '-s', '-d', tmp, '-i', pf], capture_output=True, text=True)
-            if r.returncode != 0:
-                print(f'{pf}: PATCH-FAILS {r.stdout[:100]}')
-                continue
-            try:
-                prog = Program.load(tmp)
-            except AnalysisError as e:
-                print(f'{pf}: load error {e}')
-                continue
-            v, e = [], []
-            for p in sorted(PROPS):
-                code, ctx, viol = engine.run_property(p, 'quick', program=prog, write=False, quiet=True)
-                v += [f'{p}:{o.rule} {o.func}: {o.construct[:60]} -- {o.detail[:90]}' for o in viol]
-                e += [f'{p}:{r_}: {m[:110]}' for r_, m in (ctx.errors if ctx else [])]
-            fa += bool(v)
-            fc += bool(e) and not v
-            print(f'{pf}: ' + ('FALSE-ALARM' if v else ('fail-closed' if e else 'silent')))
-            for x in sorted(set(v)):
-                print('     V', x)
-            for x in sorted(set(e))[:6]:
-                print('     E', x)
-        finally:
-            shutil.rmtree(tmp, ignore_errors=True)
-print(f'{tot} refactorings: {fa} with false alarms, {fc} fail-closed (ANALYSIS-ERROR only), {tot - fa - fc} silent')
+            prog = Program.load(tmp)
+        except AnalysisError as e:
+            return pf, 'load-error', [str(e)]
+        v, e = [], []
+        for p in sorted(PROPS):
+            code, ctx, viol = engine.run_property(p, 'quick', program=prog, write=False, quiet=True)
+            v += [f'{p}:{o.rule} {o.func}: {o.construct[:60]} -- {o.detail[:90]}' for o in viol]
+            e += [f'{p}:{r_}: {m[:110]}' for r_, m in (ctx.errors if ctx else [])]
+        for x in sorted(set(v)):
+            lines.append('     V ' + x)
+        for x in sorted(set(e))[:6]:
+            lines.append('     E ' + x)
+        return pf, ('FALSE-ALARM' if v else ('fail-closed' if e else 'silent')), lines
+    finally:
+        shutil.rmtree(tmp, ignore_errors=True)
+
+
+def main():
+    args = sys.argv[1:]
+    j = 12
+    if '-j' in args:
+        j = int(args[args.index('-j') + 1])
+        del args[args.index('-j'):args.index('-j') + 2]
+    pats = args or ['/verif/refactors/*/patch.diff']
+    files = sorted(f for pat in pats for f in glob.glob(pat))
+    with mp.get_context('fork').Pool(j) as pool:
+        res = pool.map(work, files, chunksize=1)
+    fa = fc = 0
+    for pf, status, lines in res:
+        fa += status == 'FALSE-ALARM'
+        fc += status == 'fail-closed'
+        print(f'{pf}: {status}')
+        for l in lines:
+            print(l)
+    print(f'{len(res)} refactorings: {fa} with false alarms, {fc} fail-closed (ANALYSIS-ERROR only), {len(res) - fa - fc} silent')
+
+
+if __name__ == '__main__':
+    main()
